@@ -34,7 +34,7 @@ def run_main(conf: dict, d: Path, name="ladim.yaml") -> None:
         raise RunFailed(type(e).__name__, str(e)[:300]) from e
 
 
-def make_model(conf: dict, d: Path, name="ladim.yaml", via_file=False):
+def make_model(conf: dict, d: Path, name="ladim.yaml", via_file=False, share_tables=False):
     """Build the Model. By default the version-2 dictionary is handed to configure_v2 directly
     (the YAML round trip costs 25 ms and is exercised by the main()-level checks)."""
     import copy
@@ -46,7 +46,10 @@ def make_model(conf: dict, d: Path, name="ladim.yaml", via_file=False):
         if via_file:
             config = configure(str(world.write_yaml(Path(d) / name, conf)))
         else:
-            config = copy.deepcopy(world.clean(conf))
+            if share_tables:  # a user building several set-ups in one script: fresh sections, but the variable tables inside them are the same objects
+                config = {sec: (dict(v) if isinstance(v, dict) else v) for sec, v in conf.items()}
+            else:
+                config = copy.deepcopy(world.clean(conf))
             try:
                 configure_v2(config)
             except KeyError as err:
@@ -60,9 +63,9 @@ def make_model(conf: dict, d: Path, name="ladim.yaml", via_file=False):
         raise RunFailed(type(e).__name__, str(e)[:300]) from e
 
 
-def run_model(conf: dict, d: Path, after_step=None, name="ladim.yaml", nsteps=None):
+def run_model(conf: dict, d: Path, after_step=None, name="ladim.yaml", nsteps=None, share_tables=False):
     """Same loop as main(), with an inspection callback after every model.update()."""
-    model = make_model(conf, d, name)
+    model = make_model(conf, d, name, share_tables=share_tables)
     try:
         n = model.timer.Nsteps if nsteps is None else nsteps
         for k in range(n):
